@@ -9,6 +9,8 @@ CONSTANTS
   WM = 8
   ConstructSlots <- Slots2
   Unbounded = FALSE
+  Canon = FALSE
+  LinK = 0
   ViewIds <- Views1
   Ops <- ViewOps
   EmitAll = TRUE
